@@ -925,6 +925,7 @@ func (em *emitter) emitUnaryOp(expr *ast.UnaryOperator, reg int8, regType reflec
 	// *operand
 	case ast.OperatorPointer:
 		exprReg := em.directRegister(em.emitExpr(operand, operandType), operandType)
+		em.fb.addPosAndPath(expr.Pos())
 		if canEmitDirectly(exprType.Kind(), regType.Kind()) {
 			em.changeRegister(false, -exprReg, reg, operandType.Elem(), regType)
 			return
